@@ -3,11 +3,17 @@ import os
 import sys
 
 sys.path.insert(0, os.path.dirname(os.path.dirname(os.path.abspath(__file__))))
-from translate import pwm_complement  # noqa: E402
+from translate import pwm_complement, pwm_skel  # noqa: E402
 
 
 def translate():
-    return pwm_complement.generate()
+    # abc.rs -> GenComplement.v (alphabet constants, complement table); pwm/mod.rs -> GenPwmSkel.v (statement
+    # skeletons of the functions modelled in PwmStat.v, compared with the pinned PwmSkel.v by C09_source_skeleton)
+    a = pwm_complement.generate()
+    b = pwm_skel.translate()
+    return dict(ok=a.get("ok", True) and b.get("ok", True),
+                errors=list(a.get("errors", [])) + list(b.get("errors", [])),
+                notes=list(a.get("notes", [])) + list(b.get("notes", [])))
 
 
 def _fields(line):
